@@ -1133,6 +1133,26 @@ impl<S: Sut> World<S> {
                 let clock: BTreeMap<String, u64> = add.iter().map(|(a, n)| (a.to_string(), *n)).collect();
                 Some(serde_json::json!({"clock": clock, "entries": entries, "deferred": {}}).to_string())
             }
+            "MV" => {
+                // the shown writes with exactly the clocks they must carry (own dot + read-from closure)
+                let facts = self.facts_of(k);
+                let rfc = &self.rfc;
+                let past = |i: usize, j: usize| -> bool { rfc[j] >> i & 1 == 1 };
+                let puts: Vec<(usize, u32)> = facts.iter().filter_map(|(id, f)| if let Fact::MvPut { val, .. } = f { Some((*id, *val)) } else { None }).collect();
+                let mut vals = vec![];
+                for (i, v) in &puts {
+                    if puts.iter().any(|(j, _)| j != i && past(*i, *j)) {
+                        continue;
+                    }
+                    let c: BTreeMap<String, u64> = crate::spec::mv_clock(&self.facts, &past, *i).iter().map(|(a, n)| (a.to_string(), *n)).collect();
+                    vals.push(serde_json::json!([c, v]));
+                }
+                if self.cfg.equal_vals {
+                    None
+                } else {
+                    Some(serde_json::Value::Array(vals).to_string())
+                }
+            }
             _ => None,
         };
         if let Some(js) = canon {
